@@ -1,3 +1,18 @@
+/-
+C19 (part "codec"): lemmas and theorems about the decimal fixed-point text codecs
+(`Infretis.Codec`, Model/Codec.lean): GROMACS .g96 and extended xyz.
+
+Main results (all for arbitrary atom counts, proved by induction; `decide`/`rfl` only in examples
+and concrete counterexamples):
+  parse_fmt_fixed, fmtFixed_length                     number field write → read
+  xyz_read_write_roundtrip (+ xyz_write_ok)             xyz frame write → read → convert
+  extract_frame_k, extract_frame_beyond                 frame k of a trajectory
+  xyz_reverse_only_negates_vel, xyz_reverse_twice       CP2K _reverse_velocities
+  g96_read_write_roundtrip                              g96 write → read
+  g96_reverse_only_negates_vel                          GROMACS _reverse_velocities (incl. twice = id)
+  fit_of_lt, fitBox_of_lt                               the width guards as |x| bounds
+  xyz_roundtrip_zero_atoms_counterexample, g96_roundtrip_wide_box_counterexample
+-/
 import Infretis.Model.Codec
 namespace Infretis.Codec
 
@@ -899,10 +914,10 @@ example : ∃ t t', writeConf exConf = .ok t ∧ reverseXyz t = .ok t' ∧
 /-! ### GROMACS .g96 -/
 
 /-- a number fits its 15-character column (`|x| < 10^5`, negative: `|x| < 10^4`) -/
-def Fit (d : Dec) : Prop := (fmtCore 9 d).length ≤ 15
+@[reducible] def Fit (d : Dec) : Prop := (fmtCore 9 d).length ≤ 15
 def Fit3 (v : V3) : Prop := Fit v.x ∧ Fit v.y ∧ Fit v.z
 /-- a box field that keeps a leading blank (`|x| < 10^4`, negative: `|x| < 10^3`) -/
-def FitBox (d : Dec) : Prop := (fmtCore 9 d).length ≤ 14
+@[reducible] def FitBox (d : Dec) : Prop := (fmtCore 9 d).length ≤ 14
 
 theorem mem_strip_of_noWs {c : Char} {l : List Char} (hc : c ∈ l) (hw : isWs c = false) : c ∈ strip l := by
   have hd : ∀ (l : List Char), c ∈ l → c ∈ l.dropWhile isWs := by
@@ -1126,5 +1141,296 @@ theorem g96BoxLine_eq (box : List Dec) (h : box.length = 3 ∨ box.length = 9) :
   rcases h with h | h
   · simp [h]
   · simp [h, List.take_of_length_le (Nat.le_of_eq h)]
+
+/-! ### Theorem 2: g96 write → read round trip -/
+
+/-- the guard of the g96 round trip.  `raw` is what `read_gromos96_file` returns for the file the
+    labels come from: 24-character labels (no line terminator inside), title lines that are
+    rstrip-stable and neither `END` nor a section keyword, exactly one BOX line (its content is
+    irrelevant: it is replaced by the formatted box), as many velocity labels as position labels;
+    one row of numbers per label, every number within its 15-character column; a box of 3 or 9
+    numbers of which all but the first keep a leading blank (the box is read back by a whitespace
+    split, not by columns). -/
+structure G96Ok (raw : G96Raw) (xyz vel : List V3) (box : List Dec) : Prop where
+  title_ok : ∀ t ∈ raw.title, NoBrk t ∧ rstrip t = t ∧ DataLine t
+  pos_ok : ∀ t ∈ raw.pos, t.length = 24 ∧ NoBrk t
+  vel_ok : ∀ t ∈ raw.vel, t.length = 24 ∧ NoBrk t
+  same_len : raw.vel.length = raw.pos.length
+  xyz_len : xyz.length = raw.pos.length
+  vel_len : vel.length = raw.vel.length
+  xyz_fit : ∀ v ∈ xyz, Fit3 v
+  vel_fit : ∀ v ∈ vel, Fit3 v
+  one_box : ∃ b, raw.box = [b]
+  box_len : box.length = 3 ∨ box.length = 9
+  box_fit : ∀ d ∈ box.tail, FitBox d
+
+def g96Lines (raw : G96Raw) (xyz vel : List V3) (box : List Dec) : List Line :=
+  [kwTITLE] ++ raw.title ++ [kwEND, kwPOSITION] ++ rowLs raw.pos xyz ++ [kwEND, kwVELOCITY]
+    ++ rowLs raw.vel vel ++ [kwEND, kwBOX] ++ [fmtCat 15 9 box] ++ [kwEND]
+
+theorem writeG96Lines_eq (raw : G96Raw) (xyz vel : List V3) (box : List Dec) (h : G96Ok raw xyz vel box) :
+    writeG96Lines raw xyz (some vel) (some box) = .ok (g96Lines raw xyz vel box) := by
+  obtain ⟨b, hb⟩ := h.one_box
+  simp [writeG96Lines, g96Rows_eq _ _ h.xyz_len, g96Rows_eq _ _ h.vel_len, hb, g96BoxLine_eq box h.box_len,
+    g96Lines]
+
+theorem box_ne_nil {box : List Dec} (h : box.length = 3 ∨ box.length = 9) : box ≠ [] := by
+  intro e; subst e; simp at h
+
+theorem collect_g96Lines (raw : G96Raw) (xyz vel : List V3) (box : List Dec) (h : G96Ok raw xyz vel box) :
+    g96Collect none (g96Lines raw xyz vel box) =
+      .ok ⟨raw.title, rowLs raw.pos xyz, rowLs raw.vel vel, [fmtCat 15 9 box], [], []⟩ := by
+  have hbne := box_ne_nil h.box_len
+  have pp := rowLs_props raw.pos xyz h.xyz_len (fun t ht => (h.pos_ok t ht).1) h.xyz_fit
+  have pv := rowLs_props raw.vel vel h.vel_len (fun t ht => (h.vel_ok t ht).1) h.vel_fit
+  have h4 : g96Collect (some .box) [kwEND] = .ok G96Raw.empty := by rw [collect_end]; rfl
+  have h3 := collect_data .box [fmtCat 15 9 box] [kwEND] _
+    (by intro l hl; simp at hl; subst hl; exact fmtCat_data box hbne) h4
+  have h3' : g96Collect (some .velocity) (kwEND :: kwBOX :: ([fmtCat 15 9 box] ++ [kwEND])) =
+      .ok (pushAll .box ([fmtCat 15 9 box].map rstrip) G96Raw.empty) := by
+    rw [collect_end, collect_kw _ kwBOX .box _ (by decide) (by decide)]; exact h3
+  have h2 := collect_data .velocity (rowLs raw.vel vel) _ _ pv.1 h3'
+  have h2' : g96Collect (some .position) (kwEND :: kwVELOCITY :: (rowLs raw.vel vel ++
+      (kwEND :: kwBOX :: ([fmtCat 15 9 box] ++ [kwEND])))) =
+      .ok (pushAll .velocity ((rowLs raw.vel vel).map rstrip) (pushAll .box ([fmtCat 15 9 box].map rstrip) G96Raw.empty)) := by
+    rw [collect_end, collect_kw _ kwVELOCITY .velocity _ (by decide) (by decide)]; exact h2
+  have h1 := collect_data .position (rowLs raw.pos xyz) _ _ pp.1 h2'
+  have h1' : g96Collect (some .title) (kwEND :: kwPOSITION :: (rowLs raw.pos xyz ++
+      (kwEND :: kwVELOCITY :: (rowLs raw.vel vel ++ (kwEND :: kwBOX :: ([fmtCat 15 9 box] ++ [kwEND])))))) =
+      .ok (pushAll .position ((rowLs raw.pos xyz).map rstrip) (pushAll .velocity ((rowLs raw.vel vel).map rstrip) (pushAll .box ([fmtCat 15 9 box].map rstrip) G96Raw.empty))) := by
+    rw [collect_end, collect_kw _ kwPOSITION .position _ (by decide) (by decide)]; exact h1
+  have h0 := collect_data .title raw.title _ _ (fun t ht => (h.title_ok t ht).2.2) h1'
+  have ht : raw.title.map rstrip = raw.title := by
+    have : ∀ (ls : List Line), (∀ t ∈ ls, rstrip t = t) → ls.map rstrip = ls := by
+      intro ls; induction ls with
+      | nil => intro _; rfl
+      | cons a t ih => intro hh; simp [hh a (by simp), ih (fun x hx => hh x (by simp [hx]))]
+    exact this _ (fun t ht => (h.title_ok t ht).2.1)
+  have hfin : g96Collect none (g96Lines raw xyz vel box) =
+      .ok (pushAll .title (raw.title.map rstrip) (pushAll .position ((rowLs raw.pos xyz).map rstrip) (pushAll .velocity ((rowLs raw.vel vel).map rstrip) (pushAll .box ([fmtCat 15 9 box].map rstrip) G96Raw.empty)))) := by
+    unfold g96Lines
+    simp only [List.append_assoc, List.cons_append, List.nil_append]
+    rw [collect_kw _ kwTITLE .title _ (by decide) (by decide)]
+    exact h0
+  rw [hfin, pushAll_title, pushAll_position, pushAll_velocity, pushAll_box, ht, pp.2.1, pv.2.1]
+  simp [G96Raw.empty, fmtCat_rstrip box hbne]
+
+theorem NoBrk_g96Lines (raw : G96Raw) (xyz vel : List V3) (box : List Dec) (h : G96Ok raw xyz vel box) :
+    ∀ l ∈ g96Lines raw xyz vel box, NoBrk l := by
+  have hrow : ∀ (ts : List Line) (vs : List V3), (∀ t ∈ ts, NoBrk t) → ∀ l ∈ rowLs ts vs, NoBrk l := by
+    intro ts
+    induction ts with
+    | nil => intro vs _ l hl; simp [rowLs] at hl
+    | cons t ts ih =>
+      intro vs ht l hl
+      cases vs with
+      | nil => simp [rowLs] at hl
+      | cons v vs =>
+        simp only [rowLs, List.mem_cons] at hl
+        rcases hl with e | hl
+        · subst e
+          exact NoBrk_append (NoBrk_append (NoBrk_append (ht t (by simp)) (NoBrk_fmtFixed _ _ _))
+            (NoBrk_fmtFixed _ _ _)) (NoBrk_fmtFixed _ _ _)
+        · exact ih vs (fun x hx => ht x (by simp [hx])) l hl
+  have hkw : ∀ k ∈ [kwTITLE, kwEND, kwPOSITION, kwVELOCITY, kwBOX], NoBrk k := by
+    intro k hk c hc; revert c; revert k; decide
+  intro l hl
+  simp only [g96Lines, List.mem_append, List.mem_cons, List.not_mem_nil, or_false] at hl
+  rcases hl with (((((((e | hl) | e | e) | hl) | e | e) | hl) | e | e) | e) | e
+  · subst e; exact hkw _ (by simp)
+  · exact (h.title_ok l hl).1
+  · subst e; exact hkw _ (by simp)
+  · subst e; exact hkw _ (by simp)
+  · exact hrow _ _ (fun t ht => (h.pos_ok t ht).2) l hl
+  · subst e; exact hkw _ (by simp)
+  · subst e; exact hkw _ (by simp)
+  · exact hrow _ _ (fun t ht => (h.vel_ok t ht).2) l hl
+  · subst e; exact hkw _ (by simp)
+  · subst e; exact hkw _ (by simp)
+  · subst e; exact NoBrk_fmtCat box
+  · subst e; exact hkw _ (by simp)
+
+/-- what the reader returns for the written file: the same labels and title, the one formatted box line -/
+def rawAfter (raw : G96Raw) (box : List Dec) : G96Raw :=
+  { raw with box := [fmtCat 15 9 box], posred := [], velred := [] }
+
+theorem readG96Lines_g96Lines (raw : G96Raw) (xyz vel : List V3) (box : List Dec) (h : G96Ok raw xyz vel box) :
+    readG96Lines (g96Lines raw xyz vel box) = .ok ⟨rawAfter raw box, xyz, vel, some box⟩ := by
+  have pp := rowLs_props raw.pos xyz h.xyz_len (fun t ht => (h.pos_ok t ht).1) h.xyz_fit
+  have pv := rowLs_props raw.vel vel h.vel_len (fun t ht => (h.vel_ok t ht).1) h.vel_fit
+  have hb : parseAll 9 (splitWs (fmtCat 15 9 box)) = some box := by
+    rw [splitWs_fmtCat box h.box_fit, parseAll_cores]
+  unfold readG96Lines
+  rw [collect_g96Lines raw xyz vel box h]
+  simp only [pp.2.2.1, pv.2.2.1, g96ParseRows, List.append_nil, pp.2.2.2, pv.2.2.2, hb, rawAfter]
+  by_cases hv : raw.vel = []
+  · have hp : raw.pos = [] := List.length_eq_zero_iff.1 (by rw [← h.same_len, hv]; rfl)
+    have hx : xyz = [] := List.length_eq_zero_iff.1 (by rw [h.xyz_len, hp]; rfl)
+    have hvv : vel = [] := List.length_eq_zero_iff.1 (by rw [h.vel_len, hv]; rfl)
+    simp [hv, hx, hvv]
+  · simp [hv]
+
+/-- **Theorem 2.** Under the guard `G96Ok`, for any number of atoms: the file written by
+    `write_gromos96_file(raw, xyz, vel, box)` is read by `read_gromos96_file` as exactly the same
+    positions, velocities (signs of zero included) and box, with the same title and labels. -/
+theorem g96_read_write_roundtrip (raw : G96Raw) (xyz vel : List V3) (box : List Dec)
+    (h : G96Ok raw xyz vel box) :
+    ∃ t, writeG96 raw xyz (some vel) (some box) = .ok t ∧
+      readG96 t = .ok ⟨rawAfter raw box, xyz, vel, some box⟩ := by
+  refine ⟨unlines (g96Lines raw xyz vel box), by simp [writeG96, writeG96Lines_eq raw xyz vel box h], ?_⟩
+  rw [readG96, pyLines_unlines _ (NoBrk_g96Lines raw xyz vel box h)]
+  exact readG96Lines_g96Lines raw xyz vel box h
+
+/-! explicit width guards -/
+
+theorem natDigitsF_length : ∀ f n k, n < 10 ^ k → 1 ≤ k → (natDigitsF f n).length ≤ k := by
+  intro f
+  induction f with
+  | zero => intro n k _ _; simp [natDigitsF]
+  | succ f ih =>
+    intro n k hn hk
+    unfold natDigitsF
+    split
+    · simpa using hk
+    · rename_i h10
+      obtain ⟨k', rfl⟩ : ∃ k', k = k' + 1 := ⟨k - 1, by omega⟩
+      have hk' : 1 ≤ k' := by
+        rcases Nat.eq_zero_or_pos k' with e | e
+        · subst e; simp at hn; omega
+        · exact e
+      have hdiv : n / 10 < 10 ^ k' := by
+        apply Nat.div_lt_of_lt_mul
+        rw [Nat.pow_succ, Nat.mul_comm] at hn
+        exact hn
+      have := ih (n / 10) k' hdiv hk'
+      simp; omega
+
+theorem fmtCore9_length (d : Dec) (k : Nat) (hk : 1 ≤ k) (h : d.mag < 10 ^ (k + 9)) :
+    (fmtCore 9 d).length ≤ (if d.neg then 1 else 0) + k + 10 := by
+  have hdiv : d.mag / 10 ^ 9 < 10 ^ k := by
+    apply Nat.div_lt_of_lt_mul
+    rw [← Nat.pow_add, Nat.add_comm]; exact h
+  have := natDigitsF_length (d.mag / 10 ^ 9 + 1) _ k hdiv hk
+  simp only [fmtCore, List.length_append, List.length_cons, fracDigits_length]
+  unfold natDigits
+  cases d.neg <;> simp <;> omega
+
+/-- `|x| < 10^5` for non-negative, `|x| < 10^4` for negative numbers: the number fits its column -/
+theorem fit_of_lt (d : Dec) (hp : d.neg = false → d.mag < 10 ^ 14) (hn : d.neg = true → d.mag < 10 ^ 13) :
+    Fit d := by
+  unfold Fit
+  cases hneg : d.neg with
+  | false => have := fmtCore9_length d 5 (by omega) (hp hneg); simp [hneg] at this; omega
+  | true => have := fmtCore9_length d 4 (by omega) (hn hneg); simp [hneg] at this; omega
+
+/-- `|x| < 10^4` for non-negative, `|x| < 10^3` for negative numbers: a box field keeps its blank -/
+theorem fitBox_of_lt (d : Dec) (hp : d.neg = false → d.mag < 10 ^ 13) (hn : d.neg = true → d.mag < 10 ^ 12) :
+    FitBox d := by
+  unfold FitBox
+  cases hneg : d.neg with
+  | false => have := fmtCore9_length d 4 (by omega) (hp hneg); simp [hneg] at this; omega
+  | true => have := fmtCore9_length d 3 (by omega) (hn hneg); simp [hneg] at this; omega
+
+/-! ### Theorem 5 (g96): reversing velocities -/
+
+theorem g96Lines_rawAfter (raw : G96Raw) (xyz vel : List V3) (box box' : List Dec) :
+    g96Lines (rawAfter raw box') xyz vel box = g96Lines raw xyz vel box := rfl
+
+theorem G96Ok_rawAfter {raw : G96Raw} {xyz vel : List V3} {box : List Dec} (h : G96Ok raw xyz vel box) :
+    G96Ok (rawAfter raw box) xyz vel box :=
+  ⟨h.title_ok, h.pos_ok, h.vel_ok, h.same_len, h.xyz_len, h.vel_len, h.xyz_fit, h.vel_fit, ⟨_, rfl⟩,
+    h.box_len, h.box_fit⟩
+
+theorem G96Ok_negate {raw : G96Raw} {xyz vel : List V3} {box : List Dec} (h : G96Ok raw xyz vel box)
+    (hn : ∀ v ∈ vel, Fit3 v.negate) : G96Ok raw xyz (vel.map V3.negate) box :=
+  ⟨h.title_ok, h.pos_ok, h.vel_ok, h.same_len, h.xyz_len, by simpa using h.vel_len, h.xyz_fit,
+    by intro v hv; obtain ⟨u, hu, e⟩ := List.mem_map.1 hv; subst e; exact hn u hu,
+    h.one_box, h.box_len, h.box_fit⟩
+
+/-- `_reverse_velocities` re-emits title, labels, positions and the raw BOX line verbatim and
+    prints the negated velocities -/
+theorem reverseG96_eq (raw : G96Raw) (xyz vel : List V3) (box : List Dec) (h : G96Ok raw xyz vel box) :
+    reverseG96 (unlines (g96Lines raw xyz vel box)) =
+      .ok (unlines (g96Lines raw xyz (vel.map V3.negate) box)) := by
+  have hr : readG96 (unlines (g96Lines raw xyz vel box)) = .ok ⟨rawAfter raw box, xyz, vel, some box⟩ := by
+    rw [readG96, pyLines_unlines _ (NoBrk_g96Lines raw xyz vel box h)]
+    exact readG96Lines_g96Lines raw xyz vel box h
+  have hl : (vel.map V3.negate).length = raw.vel.length := by simpa using h.vel_len
+  unfold reverseG96
+  rw [hr]
+  simp [writeG96, writeG96Lines, rawAfter, g96Rows_eq _ _ h.xyz_len, g96Rows_eq _ _ hl, g96Lines]
+
+/-- **Theorem 5 (g96).** Under the round-trip guard for the velocities and for their negatives
+    (a velocity `≥ 10^4` fits its column but its negative does not): the file produced by
+    `_reverse_velocities` reads back with the same title, labels, positions and box and with every
+    velocity component sign-flipped (also zeros); reversing it again restores the original bytes. -/
+theorem g96_reverse_only_negates_vel (raw : G96Raw) (xyz vel : List V3) (box : List Dec)
+    (h : G96Ok raw xyz vel box) (hn : ∀ v ∈ vel, Fit3 v.negate) (t : Text)
+    (hw : writeG96 raw xyz (some vel) (some box) = .ok t) :
+    ∃ t', reverseG96 t = .ok t' ∧
+      readG96 t' = .ok ⟨rawAfter raw box, xyz, vel.map V3.negate, some box⟩ ∧
+      reverseG96 t' = .ok t := by
+  have ht : t = unlines (g96Lines raw xyz vel box) := by
+    simp [writeG96, writeG96Lines_eq raw xyz vel box h] at hw; exact hw.symm
+  have h' := G96Ok_negate h hn
+  refine ⟨_, ht ▸ reverseG96_eq raw xyz vel box h, ?_, ?_⟩
+  · rw [readG96, pyLines_unlines _ (NoBrk_g96Lines _ _ _ _ h')]
+    exact readG96Lines_g96Lines _ _ _ _ h'
+  · rw [reverseG96_eq _ _ _ _ h', map_negate_negate, ht]
+
+/-! non-vacuity and the boundary of the box guard -/
+
+def exRaw : G96Raw :=
+  { title := [['w', 'a', 't', 'e', 'r', ' ', 'b', 'o', 'x']],
+    pos := [List.replicate 19 ' ' ++ ['S', 'O', 'L', ' ', '1'], List.replicate 24 ' '],
+    vel := [List.replicate 19 ' ' ++ ['S', 'O', 'L', ' ', '1'], List.replicate 19 ' ' ++ ['S', 'O', 'L', ' ', '2']],
+    box := [['x']], posred := [], velred := [] }
+def exXyz : List V3 := [⟨⟨false, 1500000000⟩, ⟨true, 0⟩, ⟨false, 99999999999999⟩⟩, ⟨⟨true, 9999999999999⟩, ⟨false, 1⟩, ⟨true, 25⟩⟩]
+def exVel : List V3 := [⟨⟨true, 100000000⟩, ⟨false, 0⟩, ⟨true, 0⟩⟩, ⟨⟨false, 7⟩, ⟨false, 9999999999999⟩, ⟨true, 3⟩⟩]
+def exBox : List Dec := [⟨false, 99999999999999⟩, ⟨false, 2000000000⟩, ⟨false, 3500000001⟩]
+
+theorem exG96_ok : G96Ok exRaw exXyz exVel exBox := by
+  refine ⟨?_, ?_, ?_, rfl, rfl, rfl, ?_, ?_, ⟨_, rfl⟩, Or.inl rfl, ?_⟩
+  · intro t ht
+    simp only [exRaw, List.mem_cons, List.not_mem_nil, or_false] at ht
+    subst ht
+    exact ⟨by intro c hc; revert c; decide, by decide, by decide, by decide⟩
+  · intro t ht
+    simp only [exRaw, List.mem_cons, List.not_mem_nil, or_false] at ht
+    rcases ht with e | e <;> subst e <;> exact ⟨by decide, by intro c hc; revert c; decide⟩
+  · intro t ht
+    simp only [exRaw, List.mem_cons, List.not_mem_nil, or_false] at ht
+    rcases ht with e | e <;> subst e <;> exact ⟨by decide, by intro c hc; revert c; decide⟩
+  · intro v hv
+    simp only [exXyz, List.mem_cons, List.not_mem_nil, or_false] at hv
+    rcases hv with e | e <;> subst e <;> exact ⟨by decide, by decide, by decide⟩
+  · intro v hv
+    simp only [exVel, List.mem_cons, List.not_mem_nil, or_false] at hv
+    rcases hv with e | e <;> subst e <;> exact ⟨by decide, by decide, by decide⟩
+  · intro d hd
+    simp only [exBox, List.tail_cons, List.mem_cons, List.not_mem_nil, or_false] at hd
+    rcases hd with e | e <;> subst e <;> decide
+
+example : ∃ t, writeG96 exRaw exXyz (some exVel) (some exBox) = .ok t ∧
+    readG96 t = .ok ⟨rawAfter exRaw exBox, exXyz, exVel, some exBox⟩ :=
+  g96_read_write_roundtrip _ _ _ _ exG96_ok
+
+example : ∃ t t', writeG96 exRaw exXyz (some exVel) (some exBox) = .ok t ∧ reverseG96 t = .ok t' ∧
+    readG96 t' = .ok ⟨rawAfter exRaw exBox, exXyz, exVel.map V3.negate, some exBox⟩ ∧ reverseG96 t' = .ok t := by
+  obtain ⟨t, hw, _⟩ := g96_read_write_roundtrip _ _ _ _ exG96_ok
+  obtain ⟨t', h1, h2, h3⟩ := g96_reverse_only_negates_vel _ _ _ _ exG96_ok (by
+    intro v hv
+    simp only [exVel, List.mem_cons, List.not_mem_nil, or_false] at hv
+    rcases hv with e | e <;> subst e <;> exact ⟨by decide, by decide, by decide⟩) t hw
+  exact ⟨t, t', hw, h1, h2, h3⟩
+
+/-- The box guard is necessary: a second box component of −1234.000000005 fills its 15 columns, touches
+    the first field, and `read_gromos96_file` raises ValueError on the file `write_gromos96_file`
+    produced (positions with the same value are fine: they are read by columns). -/
+theorem g96_roundtrip_wide_box_counterexample :
+    ∃ t, writeG96 exRaw exXyz (some exVel) (some [⟨false, 7000000000⟩, ⟨true, 1234000000005⟩, ⟨false, 5⟩]) = .ok t ∧
+      readG96 t = .error .value := by
+  refine ⟨_, rfl, ?_⟩
+  rfl
 
 end Infretis.Codec
